@@ -23,6 +23,10 @@
     error given by the transport is passed on unchanged; _force_close hands the reason it was given to _cleanup.
     mac.py: a tag whose length differs from the negotiated MAC size never verifies (_HMAC, _UMAC, _NullMAC); the MAC
     table pairs every hash_size with a handler that produces tags of that size (data lemma).
+(j) strict kex (prefix truncation): _process_kexinit[record] (C06's contract object registered under C01) - strict kex
+    is switched on exactly when the PEER's first KEXINIT carries the marker of the peer's role; _recv_packet: no
+    IGNORE/UNIMPLEMENTED/DEBUG reaches a handler before the first keys under strict kex; bounded native grid.
+    (f) is stated on the meaning of the AES-GCM library calls (one-shot AESGCM and the Cipher/GCM context API).
 """
 import z3
 from pyvc.contracts import *
@@ -36,6 +40,17 @@ ASSUMPTIONS = [
     'uninterpreted functions',
     'the 16-cipher x MAC table itself is data; every suite goes through one of the four Encryption classes under contract, '
     'which delegate to mac.py (_HMAC, _UMAC, _NullMAC), GCMCipher and ChachaCipher - all under contract here',
+    'library contracts (trusted, cryptography.hazmat AES-GCM, one-shot and context API - the table above '
+    'gcm_verify_and_decrypt): the tag is checked by AESGCM.decrypt / decryptor.finalize() / finalize_with_tag() and only '
+    'there (InvalidTag otherwise); update() returns unauthenticated output of the same length; GCM() rejects tags '
+    'shorter than min_tag_length or longer than 16 bytes; AESGCM.encrypt / encryptor.finalize()+.tag produce one seal '
+    'with a 16-byte tag',
+    'GCMCipher class view: the key is _key (today) or a cached algorithms.AES(key) object _alg; requires says both '
+    'denote the key handed to __init__ (the only writer; not under contract)',
+    'strict kex: the contract object of C06 (c06_handlers.kexinit_strict) is registered under C01 unchanged (plus the '
+    'inlined role helper _get_extra_kex_algs); its refutations are quantified (list membership) and come back '
+    '`unknown` from the solvers - they count as VIOLATION through the baseline guard (obligation proved in the '
+    'baseline, source changed) and the bounded native grid specs/c06_native.py supplies the concrete failing input',
     'library contracts (trusted): AESGCM.decrypt returns the plaintext iff the tag verifies and raises InvalidTag '
     'otherwise, AESGCM.encrypt appends a 16-byte tag; Poly1305.verify_tag returns iff tag == Poly1305(key, data) and '
     'raises InvalidSignature otherwise; hmac.new / umac objects are functions of their arguments',
@@ -636,50 +651,213 @@ def mac_table_lemma():
             'detail': {'rows': len(rows), 'bad': bad}, 'backend': 'data (AST literal)', 'replayed': True}
 
 
+def strict_kex_native_grid():
+    """Bounded native stand-in (NOT counted as proof): the region contract of _process_kexinit registered below cannot
+    be replayed natively, and a refutation of its membership clause is quantified (the solvers answer `unknown`);
+    specs/c06_native.py runs the REAL _process_kexinit in both roles over the grid peer-marker x first-exchange x
+    receive-keys x sequence-number x strict-before and compares _strict_kex / the first-packet rule with OpenSSH
+    PROTOCOL 1.10, which supplies concrete failing inputs."""
+    import json
+    import os
+    import subprocess
+    from pyvc import extract
+    name = 'C01.bounded#strict-kex-enabled-exactly-when-the-peer-offers-it(native, 64-case grid)'
+    script = os.path.join(os.path.dirname(os.path.dirname(os.path.abspath(__file__))), 'specs', 'c06_native.py')
+    try:
+        p = subprocess.run(['/venv/bin/python', script], capture_output=True, text=True,
+                           env=dict(os.environ, PYTHONPATH=extract.REPO), timeout=120)
+        out = json.loads(p.stdout)
+        return {'name': name, 'inputs': out['cases'], 'violations': out['violations']}
+    except Exception as e:      # harness trouble is never a verdict
+        return {'name': name, 'inputs': 0, 'violations': [], 'error': repr(e)}
+
+
 def extra_checks(tier, seed):
-    return {'lemmas': [mac_table_lemma()]}
+    return {'lemmas': [mac_table_lemma()], 'bounded': [strict_kex_native_grid()]}
 
 
 # ------------------------------------------------------------------ crypto/cipher.py: AES-GCM (RFC 5647)
 # AES-GCM has no explicit sequence number: the 64-bit invocation counter inside the IV IS the replay / reorder
 # protection, so it has to move exactly once per packet on BOTH outcomes of the tag check.
-# library contract (cryptography.hazmat AESGCM, trusted): decrypt(iv, ct||tag, aad) returns the plaintext iff the
-# tag verifies and raises InvalidTag otherwise; encrypt(iv, pt, aad) returns ct||tag with a 16-byte tag.
-gcm_dec_f = z3.Function('aesgcm_decrypt', BytesS, BytesS, BytesS, BytesS, BytesS)   # (key, iv, ct||tag, aad)
-gcm_enc_f = z3.Function('aesgcm_encrypt', BytesS, BytesS, BytesS, BytesS, BytesS)   # (key, iv, pt, aad)
+#
+# The contract is stated on the MEANING of the library calls, not on which of them are used:
+#   sealed_ok(key, iv, ct || tag, aad)   "tag is the AES-GCM tag of (ct, aad) under (key, iv)"        (uninterpreted)
+#   gcm_open(key, iv, ct || tag, aad)    the plaintext of ct                                            (uninterpreted)
+#   gcm_seal(key, iv, pt, aad)           ct || tag, 16-byte tag                                         (uninterpreted)
+# Library contracts (cryptography.hazmat, trusted) - the tag is checked by AESGCM.decrypt / by the decryptor's
+# finalize() / finalize_with_tag() and ONLY there:
+#   AESGCM(key).decrypt(iv, blob, aad)    returns gcm_open(..) iff sealed_ok(key, iv, blob, aad), else raises InvalidTag
+#   AESGCM(key).encrypt(iv, pt, aad)      returns gcm_seal(key, iv, pt, aad)
+#   Cipher(AES(key), GCM(iv[, tag[, min_tag_length]])).decryptor() / .encryptor()    a context; GCM() raises ValueError
+#                                         for a tag shorter than min_tag_length or longer than 16 bytes
+#   ctx.authenticate_additional_data(a)   appends to the AAD, checks nothing
+#   ctx.update(d)                         returns len(d) bytes of UNAUTHENTICATED output, checks nothing
+#   decryptor.finalize() / finalize_with_tag(t)   returns b'' iff sealed_ok(key, iv, input || tag, aad) (16-byte tag; a
+#                                         shorter, truncated tag is checked by some other predicate - unconstrained
+#                                         here), and then the concatenated update() outputs are gcm_open(..);
+#                                         raises InvalidTag otherwise (ValueError without a tag)
+#   encryptor.finalize()                  returns b'', sets .tag with update outputs || tag == gcm_seal(key, iv, input, aad)
+# A body that returns plaintext without having reached a checking call knows nothing about sealed_ok and fails.
+sealed_ok_f = z3.Function('aesgcm_sealed_ok', BytesS, BytesS, BytesS, BytesS, z3.BoolSort())   # (key, iv, ct||tag, aad)
+gcm_dec_f = z3.Function('aesgcm_open', BytesS, BytesS, BytesS, BytesS, BytesS)      # (key, iv, ct||tag, aad)
+gcm_enc_f = z3.Function('aesgcm_seal', BytesS, BytesS, BytesS, BytesS, BytesS)      # (key, iv, pt, aad)
 GCM_TAG = 16
+EMPTY = z3.Empty(BytesS)
 
 
+def _lib(fn):
+    fn.modifies = ()
+    return fn
+
+
+@_lib
 def aesgcm_ctor(cx):
     o = cx.fresh('obj:AESGCM', 'aesgcm')
     cx.st.set_field(o, 'ghost_key', cx.args[0])
     return [Out(ret=o)]
 
 
-aesgcm_ctor.modifies = ()
-
-
+@_lib
 def aesgcm_decrypt(cx):
     key = cx.ex.get_field(cx.st, cx.recv, 'ghost_key')
     iv, data, aad = cx.args
-    ev = ('gcm_decrypt', (key, iv, data, aad, cx.selff('_iv')))
-    return [Out(ret=VBytes(gcm_dec_f(key.z, iv.z, data.z, aad.z)), event=ev), Out(exc=VExc('InvalidTag'), event=ev)]
+    ok = sealed_ok_f(key.z, iv.z, data.z, aad.z)
+    ev = ('gcm_check', (key, iv, data, aad, cx.selff('_iv')))
+    return [Out(ret=VBytes(gcm_dec_f(key.z, iv.z, data.z, aad.z)), assume=[ok], event=ev),
+            Out(exc=VExc('InvalidTag'), assume=[z3.Not(ok)], event=ev)]
 
 
-aesgcm_decrypt.modifies = ()
-
-
+@_lib
 def aesgcm_encrypt(cx):
     key = cx.ex.get_field(cx.st, cx.recv, 'ghost_key')
     iv, data, aad = cx.args
     ct = gcm_enc_f(key.z, iv.z, data.z, aad.z)
     return [Out(ret=VBytes(ct), assume=[z3.Length(ct) == z3.Length(data.z) + GCM_TAG],
-                event=('gcm_encrypt', (key, iv, data, aad, cx.selff('_iv'))))]
+                event=('gcm_seal', (key, iv, data, aad, cx.selff('_iv'))))]
 
 
-aesgcm_encrypt.modifies = ()
+@_lib
+def aes_alg_ctor(cx):                      # algorithms.AES(key)
+    o = cx.fresh('obj:AESAlg', 'aes_alg')
+    cx.st.set_field(o, 'ghost_key', cx.args[0])
+    return [Out(ret=o)]
 
-GCM_CLASSES = {'GCMCipher': {'_iv': 'bytes', '_key': 'bytes'}, 'AESGCM': {'ghost_key': 'bytes'}}
+
+@_lib
+def gcm_mode_ctor(cx):                     # modes.GCM(initialization_vector, tag=None, min_tag_length=16)
+    args = list(cx.args)
+    iv = args[0] if args else cx.kwargs['initialization_vector']
+    tag = args[1] if len(args) > 1 else cx.kwargs.get('tag', VNone)
+    mtl = args[2] if len(args) > 2 else cx.kwargs.get('min_tag_length', VInt(16))
+    o = cx.fresh('obj:GCMMode', 'gcm_mode')
+    cx.st.set_field(o, 'ghost_iv', iv)
+    if tag is VNone:
+        cx.st.set_field(o, 'ghost_has_tag', VBool(False))
+        cx.st.set_field(o, 'ghost_tag', VBytes(EMPTY))
+        return [Out(ret=o)]
+    cx.st.set_field(o, 'ghost_has_tag', VBool(True))
+    cx.st.set_field(o, 'ghost_tag', tag)
+    fits = z3.And(z3.Length(tag.z) >= cx.ex.as_int(mtl), z3.Length(tag.z) <= GCM_TAG)
+    return [Out(ret=o, assume=[fits]), Out(exc=VExc('ValueError'), assume=[z3.Not(fits)])]
+
+
+@_lib
+def cipher_ctor(cx):                       # Cipher(algorithm, mode)
+    alg, mode = cx.args[0], cx.args[1]
+    o = cx.fresh('obj:CipherObj', 'cipher')
+    cx.st.set_field(o, 'ghost_key', cx.ex.get_field(cx.st, alg, 'ghost_key'))
+    for f in ('ghost_iv', 'ghost_has_tag', 'ghost_tag'):
+        cx.st.set_field(o, f, cx.ex.get_field(cx.st, mode, f))
+    return [Out(ret=o)]
+
+
+def _aead_ctx(enc):
+    @_lib
+    def stub(cx):                          # Cipher.decryptor() / Cipher.encryptor()
+        o = cx.fresh('obj:AEADCtx', 'aead_ctx')
+        for f in ('ghost_key', 'ghost_iv', 'ghost_has_tag', 'ghost_tag'):
+            cx.st.set_field(o, f, cx.ex.get_field(cx.st, cx.recv, f))
+        cx.st.set_field(o, 'ghost_enc', VBool(enc))
+        for f in ('ghost_aad', 'ghost_in', 'ghost_out', 'tag'):
+            cx.st.set_field(o, f, VBytes(EMPTY))
+        return [Out(ret=o)]
+    return stub
+
+
+def _cat(a, b):
+    """concatenation that keeps terms small: x ++ empty is x"""
+    if a.eq(EMPTY):
+        return b
+    if b.eq(EMPTY):
+        return a
+    return z3.Concat(a, b)
+
+
+def _ctxf(cx, f):
+    return cx.ex.get_field(cx.st, cx.recv, f)
+
+
+@_lib
+def ctx_aad(cx):
+    cx.st.set_field(cx.recv, 'ghost_aad', VBytes(_cat(_ctxf(cx, 'ghost_aad').z, cx.args[0].z)))
+    return [Out(ret=VNone)]
+
+
+@_lib
+def ctx_update(cx):
+    """unauthenticated keystream output: as long as the input, otherwise unconstrained; checks nothing"""
+    d = cx.args[0]
+    out = cx.fresh('bytes', 'gcm_update_out')
+    cx.st.set_field(cx.recv, 'ghost_in', VBytes(_cat(_ctxf(cx, 'ghost_in').z, d.z)))
+    cx.st.set_field(cx.recv, 'ghost_out', VBytes(_cat(_ctxf(cx, 'ghost_out').z, out.z)))
+    return [Out(ret=out, assume=[z3.Length(out.z) == z3.Length(d.z)], event=('gcm_update', (d,)))]
+
+
+def _ctx_finalize(with_tag):
+    @_lib
+    def stub(cx):
+        key, iv, aad = _ctxf(cx, 'ghost_key').z, _ctxf(cx, 'ghost_iv').z, _ctxf(cx, 'ghost_aad').z
+        inp, outp = _ctxf(cx, 'ghost_in').z, _ctxf(cx, 'ghost_out').z
+        if z3.is_true(z3.simplify(_ctxf(cx, 'ghost_enc').z)):
+            t = cx.fresh('bytes', 'gcm_tag')
+            cx.st.set_field(cx.recv, 'tag', t)
+            return [Out(ret=VBytes(EMPTY), assume=[z3.Length(t.z) == GCM_TAG,
+                                                   _cat(outp, t.z) == gcm_enc_f(key, iv, inp, aad)],
+                        event=('gcm_seal', (VBytes(key), VBytes(iv), VBytes(inp), VBytes(aad), cx.selff('_iv'))))]
+        if with_tag:
+            tag = cx.args[0].z
+        elif z3.is_true(z3.simplify(_ctxf(cx, 'ghost_has_tag').z)):
+            tag = _ctxf(cx, 'ghost_tag').z
+        else:
+            return [Out(exc=VExc('ValueError'))]
+        blob = _cat(inp, tag)
+        other = cx.fresh('bool', 'truncated_tag_ok').z
+        ok = z3.If(z3.Length(tag) == GCM_TAG, sealed_ok_f(key, iv, blob, aad), other)
+        ev = ('gcm_check', (VBytes(key), VBytes(iv), VBytes(blob), VBytes(aad), cx.selff('_iv')))
+        return [Out(ret=VBytes(EMPTY), assume=[ok, outp == gcm_dec_f(key, iv, blob, aad)], event=ev),
+                Out(exc=VExc('InvalidTag'), assume=[z3.Not(ok)], event=ev)]
+    return stub
+
+
+_GHOST_MODE = {'ghost_key': 'bytes', 'ghost_iv': 'bytes', 'ghost_has_tag': 'bool', 'ghost_tag': 'bytes'}
+# class view: the key is held either raw (_key, today's representation) or as a cached algorithms.AES(key) object;
+# `gcm_inv` says both denote the same key (written by __init__ only)
+GCM_CLASSES = {'GCMCipher': {'_iv': 'bytes', '_key': 'bytes', '_alg': 'obj:AESAlg'},
+               'AESGCM': {'ghost_key': 'bytes'}, 'AESAlg': {'ghost_key': 'bytes'},
+               'GCMMode': dict(_GHOST_MODE), 'CipherObj': dict(_GHOST_MODE),
+               'AEADCtx': dict(_GHOST_MODE, ghost_enc='bool', ghost_aad='bytes', ghost_in='bytes', ghost_out='bytes',
+                               tag='bytes')}
+GCM_LIB = {'AESGCM': aesgcm_ctor, 'AESGCM().decrypt': aesgcm_decrypt, 'AESGCM.decrypt': aesgcm_decrypt,
+           'AESGCM().encrypt': aesgcm_encrypt, 'AESGCM.encrypt': aesgcm_encrypt,
+           '_algs.AES': aes_alg_ctor, 'AES': aes_alg_ctor, 'GCM': gcm_mode_ctor, 'Cipher': cipher_ctor,
+           'CipherObj.decryptor': _aead_ctx(False), 'CipherObj.encryptor': _aead_ctx(True),
+           'AEADCtx.authenticate_additional_data': ctx_aad, 'AEADCtx.update': ctx_update,
+           'AEADCtx.finalize': _ctx_finalize(False), 'AEADCtx.finalize_with_tag': _ctx_finalize(True)}
+
+
+def gcm_inv(c):
+    alg_key = c.old_state.rec(c.oldv('_alg')).fields['ghost_key'].z
+    return z3.And(z3.Length(c.old('_iv')) == 12, alg_key == c.old('_key'))
 
 
 def rfc5647_next(old_iv, new_iv):
@@ -702,53 +880,53 @@ def iv_advanced_once(c):
 
 
 def gcm_vd_post(c):
-    """one AEAD open of (ct || tag) under the CURRENT iv with the length field as AAD; the plaintext is returned
-    iff the tag verified, None otherwise"""
-    e = c.events('gcm_decrypt')
-    if len(e) != 1:
-        return z3.BoolVal(False)
-    key, iv, data, aad, iv_at = e[0][1]
-    call = c.calls('decrypt')[0]
-    conj = [key.z == c.old('_key'), iv.z == c.old('_iv'), iv_at.z == c.old('_iv'),
-            data.z == z3.Concat(c.arg('data'), c.arg('mac')), aad.z == c.arg('header')]
-    if call['exc'] is not None:
-        conj.append(c.is_none(c.result_v))
-    else:
-        conj += [z3.Not(c.is_none(c.result_v)), c.eq(c.result_v, call['ret'])]
-    return z3.And(conj)
+    """no plaintext is returned unless the tag check of exactly this packet - (data || mac, AAD = the length field)
+    under the key and the CURRENT iv - ran and succeeded, and then it is the plaintext of that packet; a packet whose
+    tag is right is accepted"""
+    blob = z3.Concat(c.arg('data'), c.arg('mac'))
+    ok = sealed_ok_f(c.old('_key'), c.old('_iv'), blob, c.arg('header'))
+    r = c.result_v
+    return z3.And(z3.Implies(z3.Not(c.is_none(r)),
+                             z3.And(ok, c.eq(r, VBytes(gcm_dec_f(c.old('_key'), c.old('_iv'), blob, c.arg('header')))))),
+                  # (a genuine packet is accepted; AES-GCM tags are 16 bytes - what happens to a tag of another size is
+                  # only constrained by the first conjunct: it is never accepted unless the blob authenticates)
+                  z3.Implies(z3.And(ok, z3.Length(c.arg('mac')) == GCM_TAG), z3.Not(c.is_none(r))))
+
+
+def one_tag_check(c):
+    """at most one tag check per call, made before the IV moves (the check is bound to this packet's counter)"""
+    e = c.events('gcm_check')
+    return z3.And([z3.BoolVal(len(e) <= 1)] + [a[4].z == c.old('_iv') for _n, a in e])
 
 
 gcm_verify_and_decrypt = Spec(
     'C01', 'crypto.cipher', 'GCMCipher.verify_and_decrypt', self_class='GCMCipher',
     params=dict(header='bytes', data='bytes', mac='bytes'), classes=GCM_CLASSES,
-    stubs={'AESGCM': aesgcm_ctor, 'AESGCM().decrypt': aesgcm_decrypt,
-           'self._update_iv': contract_stub(lambda: gcm_update_iv)},
-    requires=lambda c: z3.Length(c.old('_iv')) == 12,
+    stubs=dict(GCM_LIB, **{'self._update_iv': contract_stub(lambda: gcm_update_iv)}),
+    requires=gcm_inv,
     ensures=[('plaintext-released-only-when-the-tag-verified', gcm_vd_post)],
-    always=[('iv-advanced-exactly-once-also-on-a-failed-tag', iv_advanced_once)],
+    always=[('iv-advanced-exactly-once-also-on-a-failed-tag', iv_advanced_once),
+            ('one-tag-check-under-the-current-iv', one_tag_check)],
     returns='opt[bytes]', raises={})
 
 
 def gcm_es_post(c):
-    e = c.events('gcm_encrypt')
-    if len(e) != 1:
-        return z3.BoolVal(False)
-    key, iv, data, aad, iv_at = e[0][1]
-    ct = c.calls('encrypt')[0]['ret'].z
+    """wire = length field in clear || ciphertext, tag = the 16-byte tag, of ONE seal of (data, AAD = the length
+    field) under the key and the current iv"""
+    sealed = gcm_enc_f(c.old('_key'), c.old('_iv'), c.arg('data'), c.arg('header'))
     r = c.result_v
-    return z3.And(key.z == c.old('_key'), iv.z == c.old('_iv'), iv_at.z == c.old('_iv'),
-                  data.z == c.arg('data'), aad.z == c.arg('header'),
-                  # wire = length field in clear || ciphertext, tag = the last 16 bytes of the AEAD output
-                  r.items[0].z == z3.Concat(c.arg('header'), z3.Extract(ct, 0, z3.Length(ct) - GCM_TAG)),
-                  r.items[1].z == z3.Extract(ct, z3.Length(ct) - GCM_TAG, GCM_TAG))
+    e = c.events('gcm_seal')
+    return z3.And([z3.BoolVal(len(e) == 1),
+                   r.items[0].z == z3.Concat(c.arg('header'), z3.Extract(sealed, 0, z3.Length(sealed) - GCM_TAG)),
+                   r.items[1].z == z3.Extract(sealed, z3.Length(sealed) - GCM_TAG, GCM_TAG)] +
+                  [a[4].z == c.old('_iv') for _n, a in e])
 
 
 gcm_encrypt_and_sign = Spec(
     'C01', 'crypto.cipher', 'GCMCipher.encrypt_and_sign', self_class='GCMCipher',
     params=dict(header='bytes', data='bytes'), classes=GCM_CLASSES,
-    stubs={'AESGCM': aesgcm_ctor, 'AESGCM().encrypt': aesgcm_encrypt,
-           'self._update_iv': contract_stub(lambda: gcm_update_iv)},
-    requires=lambda c: z3.Length(c.old('_iv')) == 12,
+    stubs=dict(GCM_LIB, **{'self._update_iv': contract_stub(lambda: gcm_update_iv)}),
+    requires=gcm_inv,
     ensures=[('aead-seal-under-current-iv-aad-is-the-length-field', gcm_es_post)],
     always=[('iv-advanced-exactly-once', iv_advanced_once)],
     returns='tuple[bytes,bytes]', raises={})
@@ -892,3 +1070,45 @@ send_newkeys.confirm_attempts = 24
 # the four encrypt_packet contracts (RFC 4253 6.4 / OpenSSH etm / RFC 5647 / chacha20-poly1305) are the C02 ones,
 # registered for C01 as the sending half of "tamper-evident in both directions"
 encrypt_packet_specs = _c02.mk_encrypt_packet_specs('C01')
+
+
+# ------------------------------------------------------------------ strict key exchange (OpenSSH PROTOCOL 1.10)
+# Before the first keys are in effect nothing is authenticated, so an attacker can INSERT cleartext packets (IGNORE,
+# DEBUG, ...) to shift the implicit sequence numbers and then REMOVE as many packets from the start of the encrypted
+# stream without any tag failing (prefix truncation).  The encrypted transport is tamper-evident from its first packet
+# only under strict kex, which therefore has to be switched on whenever the PEER offers it: a client that sees
+# kex-strict-s-v00@openssh.com / a server that sees kex-strict-c-v00@openssh.com in the peer's first KEXINIT.
+# The contract is C06's (c06_handlers.kexinit_strict: `strict-kex-negotiated-only-in-first-exchange-from-peer-marker`,
+# `strict-kex:KEXINIT-accepted-only-as-first-packet`, `strict-violation-is-fatal-and-inert`): the same contract object
+# is registered under C01, with the one-line role helper _get_extra_kex_algs inlined from its real source so that a
+# body which consults it is analysed.  The receive-counter reset at NEWKEYS is `_finish_recv_packet` above, the
+# "no ignorable message before the first keys" rule is the clause added to `_recv_packet` here.
+def _register_strict_kex_under_c01():
+    import copy
+    from . import c06_handlers as _h
+    cp = copy.copy(_h.kexinit_strict)
+    cp.prop = 'C01'
+    cp.inline = dict(cp.inline or {}, **{
+        'self._get_extra_kex_algs': ('connection', 'SSHConnection._get_extra_kex_algs')})
+    Spec.registry.append(cp)
+    return cp
+
+
+kexinit_strict_c01 = _register_strict_kex_under_c01()
+
+
+def strict_no_ignorable_before_keys(c):
+    """strict kex, no receive keys yet: IGNORE / UNIMPLEMENTED / DEBUG (2..4) reach no handler and end the
+    connection with a protocol error (they would otherwise move the sequence number unnoticed)"""
+    pre = z3.And(c.old('_strict_kex'), z3.Not(opt_set(c, '_recv_encryption')))
+    conj = []
+    for _n, (h, pkttype, seq, packet) in c.events('process_packet'):
+        conj.append(z3.Implies(pre, z3.Not(z3.And(pkttype.z >= 2, pkttype.z <= 4))))
+    if c.raised is None and not c.events('process_packet') and c.calls('_finish_recv_packet'):
+        # accepted without a handler (ignored first kex packet): never one of the ignorable types
+        for x in c.calls('_finish_recv_packet'):
+            conj.append(z3.Implies(pre, z3.Not(z3.And(x['args'][0].z >= 2, x['args'][0].z <= 4))))
+    return z3.And(conj) if conj else z3.BoolVal(True)
+
+
+recv_packet.always.append(('strict-kex:no-ignorable-message-before-the-first-keys', strict_no_ignorable_before_keys))
